@@ -1026,6 +1026,20 @@ pub fn full_case(t: &mut Tape, cfg: &NetCfg, cosmetic_share: usize) -> FullCase 
             ids.push(c.to_string());
         }
     }
+    if t.chance(1, 10) {
+        // a token-less rule with a long initiator list (thresholds such as 16 entries) that also
+        // names dot-less hosts; requests whose URL contains such a name as a token
+        let n = [8usize, 15, 16, 17, 24, 40][t.pick(6)];
+        let mut ds: Vec<String> = (0..n).map(|i| format!("d{}.example", i)).collect();
+        let dotless = t.choose(&["localhost", "intranet", "router"]);
+        ds.insert(t.pick(ds.len() + 1), dotless.to_string());
+        let ty = t.choose(&["script", "image"]);
+        rules.push(format!("{}${},domain={}", t.choose(&["advert", "a*", "/x."]), ty, ds.join("|")));
+        for src in ["https://unlisted.example/", "https://d3.example/", &format!("http://{}/", dotless), ""] {
+            reqs.push(ReqSpec { url: format!("https://cdn.example.net/{}/advert.js?x.", dotless), source: src.to_string(), rtype: ty.to_string() });
+            reqs.push(ReqSpec { url: "https://cdn.example.net/d3/example/advert/x.js".into(), source: src.to_string(), rtype: ty.to_string() });
+        }
+    }
     FullCase { rules, tags, reqs, pages, classes, ids, debug: t.chance(1, 2), optimize: t.chance(1, 2) }
 }
 
